@@ -254,10 +254,10 @@ ADDED = {
         "broken); (W7) the compact index form is decided on every index field of the node; (W8) the length that selects a node's format is "
         "the length the encoder writes. (W9) s-expression string escapes; (W10) arReadNumber accepts a header number ended by NUL or blank and nothing else (partial evaluation over the CFG). (W11) a unit id that is set (restored from a saved unit, or -Wname) is returned unchanged by emitGetFileIdName: the -Wprefix text is not applied to it.",
  "C06": "Also (S4) condition folds start from the neutral element of their operator; (S5) known-condition context push/pop pairing and "
-        "then/else polarity. (S6) tfSatMap0 compares components with the inner mask; (S7) And/Or sibling handlers are isomorphic; (S8) a top-down handler whose node carries its own type assigns it only after comparing it with the context type (CFG must-pass-through; the Boolean family is read from ti_bup.c). (S9) no comparison predicate is applied to two identical operands in the type checker and symbol table.",
+        "then/else polarity. (S6) tfSatMap0 compares components with the inner mask; (S7) And/Or sibling handlers are isomorphic; (S8) a top-down handler whose node carries its own type assigns it only after comparing it with the context type (CFG must-pass-through; the Boolean family is read from ti_bup.c). (S9) no comparison predicate is applied to two identical operands in the type checker and symbol table. (S10) every type-inference / scope-binding / form-checking handler named after its node kind reads only that kind's variant of the AbSyn union (180 handlers).",
  "C07": "Also (K3) a success exit reachable while compiling is guarded by the error count; (K5) unbalanced or unterminated conditional "
         "directives are diagnosed for every IfState (guard coverage by partial evaluation); (K6) cdr(cdr(x)) only under a condition "
-        "establishing cdr(x); (K7) in the form checker a variant member of an AbSyn node is read only where its tag is established. (K8) length-controlled copies into fixed arrays are clamped; (K9) radix-literal digits are compared with the radix; (K10) the macro-expansion cycle test and the push on the active stack use the same object, expansion only on the not-circular side, pushed implies popped. (K11) count agreement (and NULL termination) of every variadic node constructor call in the front end, FOAM generator and support units (about 2000 calls). (K12) a loop of the form checker that reports bad components is not left early without a report; (K13) the source line reader does not store a NUL byte in the line's C string.",
+        "establishing cdr(x); (K7) in the form checker a variant member of an AbSyn node is read only where its tag is established. (K8) length-controlled copies into fixed arrays are clamped; (K9) radix-literal digits are compared with the radix; (K10) the macro-expansion cycle test and the push on the active stack use the same object, expansion only on the not-circular side, pushed implies popped. (K11) count agreement (and NULL termination) of every variadic node constructor call in the front end, FOAM generator and support units (about 2000 calls). (K12) a loop of the form checker that reports bad components is not left early without a report; (K13) the source line reader does not store a NUL byte in the line's C string. (K14) the same for the normaliser and macro expander handlers.",
  "C08": "Also (D4) integer counters that are only ever incremented and never reset (state carried across the files of one invocation) "
         "are either frozen with the reason they cannot reach an output, or a violation. (D5) every header field and index libPutHeader writes is assigned by libNewHeader. D1 also re-confirms, for iteration sites accepted because the table's keys are integers, that every tblSetElt on that table stores an integer-class key; (D6) the invocation-wide unit id is set only by the command-line parser.",
  "C09": "Also (G4) the cells holding the sweep's free-piece index lie inside their pages (= C10 T-carve). (G5) storage freed through a global reference is not left referenced; (G6) the marker's tail-iteration test is not a comparison with the byte-granular scan bound. (G7) the Linux osMemMap bounds its entry cursor by the table's capacity and guards the look-back at the previous entry.",
@@ -265,12 +265,12 @@ ADDED = {
         "cells cut from a page by stoAllocInner number floor(bytes/size). (T-btree) a searched B-tree node is not used after a restructuring call; (T-sweep) mark bits of the quanta starting at S are cleared under a test of the tag loaded from sect->info[S]. (T-width) a value asserted below a constant and kept in an integer field fits the field's type.",
  "C12": "Also (J7) no JavaCode fragment built by the generator is dropped. (J5b) single-return runtime methods stay single-return; (J8) operator precedence/associativity table against the Java grammar; (J9) the gj0BCall handlers hand the operands to the Java constructors in order (symbolic evaluation of their list manipulation, rules/listeval.py). (J10) count agreement of the variadic constructors in the Java generator; (J11) character constants that Java's grammar forbids between quotes (backslash, quote, CR, LF) are written as escapes. (J12) each single-tag handler of the Java generator's dispatcher reads only its own tag's variant member of the FOAM node.",
  "C13": "Also (U3) every step that passes the syntax gate reaches the binder, whose entry applies the pending roll-back. (U4) line continuation inside string literals; (U5) the undo predicate selects uses whose node has no meaning.",
- "C15": "Also (P5) messages grouped under one source excerpt are grouped by a key that identifies a physical line. (P4) every #line renumbering reaches the line table on every path; (P6) in inclFile no path from the state switch reaches inclError without restoring the includer's state.",
+ "C15": "Also (P5) messages grouped under one source excerpt are grouped by a key that identifies a physical line. (P4) every #line renumbering reaches the line table on every path; (P6) in inclFile no path from the state switch reaches inclError without restoring the includer's state. (P7) the line-number packing shift is evaluated in 64 bits.",
  "C16": "Also (M4) every comparison of the unit's statement total with -Csmax has the strictness of gc0OverSMax. (M5) names declared without static are unit-qualified in split mode; (M6) gc0TypeRequiresDecl answers true for every FOAM type whose C type the default argument promotions change (types read through a probe unit). (M7) file names of additional split files are built from the output file's directory and type.",
  "C17": "Also (R4) libChkHeader constrains name and offset of every entry in [start, numSect) (interval cover of its loops); (R5) no "
         "file-derived header field steers a loop or an unguarded index before libChkHeader. (R6) arSeek treats only position == size as end.",
  "C18": "Also (O3) the checked close evaluated as straight-line code for 'error indicator set' and 'only fclose fails' reaches the "
-        "handler; (O4) rewind/clearerr/freopen only on streams all of whose values are read-mode opens.",
+        "handler; (O4) rewind/clearerr/freopen only on streams all of whose values are read-mode opens. (O5) with -Fc in force no C file (main, header, split parts) is removed by emitTheObject; (O6) a user-supplied output name is neither renamed nor pre-removed nor given to the generated aldormain unit (partial evaluation over the CFG).",
  "C19": "Also (L2) the zero shortcut of DFloatSprint keeps the sign; (L4) single/double-precision sibling functions of xfloat.c and "
         "foam_c.c are isomorphic under the family renaming (22 pairs). (L5) the float decomposition reads the sign with the mask the assembler writes, never by comparison with 0.0.",
 }
